@@ -575,6 +575,7 @@ int main(int argc, char **argv)
 	Report rep(A);
 	R = &rep;
 	if (!init_libTMCG()) return 2;
+	mcenv::hash_cache = true;
 	MuteCerr mute;
 	bool th = A.tier == "thorough";
 	build_cells(th);
